@@ -41,5 +41,6 @@ Conforms(in, obs) ==
           ELSE obs.exit = 0 /\ obs.delivered = Total(in) /\ obs.order_ok      \* every argument delivered exactly once, in order
 
 Describe(in) == [toolong |-> IF in.mode = "probe" THEN FALSE ELSE TooLong(in)]
+Beyond(in) == FALSE
 INSTANCE TraceCheck
 =============================================================================
